@@ -718,6 +718,15 @@ func assertMerge(vm *VM, t Term, merge func([]clause, []clause) []clause, env *E
 		return err
 	}
 
+	// The stored term must not share variables with the caller.
+	raw, err := renamedCopy(added[0].raw, nil, nil)
+	if err != nil {
+		return err
+	}
+	for i := range added {
+		added[i].raw = raw
+	}
+
 	u, ok := p.(*userDefined)
 	if !ok || !u.dynamic {
 		return permissionError(operationModify, permissionTypeStaticProcedure, pi.Term(), env)
